@@ -415,10 +415,22 @@ def rule_cache_key_siblings(ctx):
         for f in m.all_functions:
             if isinstance(f.node, ast.Lambda) or f.parent is not None:
                 continue
+            # locals used to subscript self._storage (whatever they are called)
+            knames = {x.slice.id for x in ast.walk(f.node) if isinstance(x, ast.Subscript) and isinstance(x.slice, ast.Name)
+                      and isinstance(x.value, ast.Attribute) and x.value.attr == "_storage"}
+            knames |= {c_.left.id for c_ in ast.walk(f.node) if isinstance(c_, ast.Compare) and isinstance(c_.left, ast.Name) and len(c_.ops) == 1
+                       and isinstance(c_.ops[0], (ast.In, ast.NotIn)) and isinstance(c_.comparators[0], ast.Attribute) and c_.comparators[0].attr == "_storage"}
             for n in ast.walk(f.node):
-                if isinstance(n, ast.Assign) and isinstance(n.targets[0], ast.Name) and n.targets[0].id == "key" and isinstance(n.value, ast.Tuple) and n.value.elts \
+                if isinstance(n, ast.Assign) and isinstance(n.targets[0], ast.Name) and n.targets[0].id in knames and isinstance(n.value, ast.Tuple) and n.value.elts \
                         and isinstance(n.value.elts[0], ast.Constant) and isinstance(n.value.elts[0].value, str):
-                    tags.setdefault(n.value.elts[0].value, []).append((f, " ".join(src_of(n.value).split())))
+                    import copy as _copy
+                    e2 = _copy.deepcopy(n.value)
+                    order = {}
+                    fnames = {id(c_.func) for c_ in ast.walk(e2) if isinstance(c_, ast.Call)}
+                    for y in ast.walk(e2):
+                        if isinstance(y, ast.Name) and id(y) not in fnames and y.id not in f.params:
+                            y.id = order.setdefault(y.id, f"v{len(order)}")
+                    tags.setdefault(n.value.elts[0].value, []).append((f, " ".join(src_of(e2).split())))
     for tag, lst in tags.items():
         shapes_t = {t for _, t in lst}
         if len(shapes_t) == 1:
